@@ -672,6 +672,29 @@ func isUntyped(t types.Type) bool {
 }
 
 func (env *Env) binary(e *ast.BinaryExpr) Term {
+	// p == nil / p != nil where p is bound to an interior location (the address of a field or element: &x.f
+	// passed as a pointer argument): such an address is never nil - the nil-deref obligation of its base was
+	// generated where the address was formed.
+	if e.Op == token.EQL || e.Op == token.NEQ {
+		isNil := func(x ast.Expr) bool { id, ok := x.(*ast.Ident); return ok && id.Name == "nil" }
+		isLoc := func(x ast.Expr) bool {
+			id, ok := x.(*ast.Ident)
+			if !ok {
+				return false
+			}
+			if _, isB := env.bound[id.Name]; isB {
+				return false
+			}
+			a, ok := env.lookupVar(id.Name)
+			return ok && a.loc != nil && a.t.S == "" && ptrElem(a.t.T) != nil
+		}
+		if (isLoc(e.X) && isNil(e.Y)) || (isNil(e.X) && isLoc(e.Y)) {
+			if e.Op == token.NEQ {
+				return boolT("true")
+			}
+			return boolT("false")
+		}
+	}
 	x, y := env.tr(e.X), env.tr(e.Y)
 	x, y = env.coerce(x, y)
 	switch e.Op {
